@@ -429,7 +429,7 @@ fn expected_upstream_pad_blocks(secret: BytesDigest, tc: u64) -> [Vec<u8>; 2] {
 
 // ------------------------------------------------------------------------------------------------ API alphabet
 
-const N_OPS: u64 = 34;
+const N_OPS: u64 = 37;
 // codes = positions in `all_ops` of coq/Sys/Zeroize.v
 const SECRET_NEW_VALID: u64 = 0;
 const SECRET_NEW_INVALID: u64 = 1;
@@ -465,6 +465,11 @@ const UA_DROP: u64 = 30;
 const UA_FROM_BYTES_BAD_LEN: u64 = 31;
 const UA_FROM_BYTES_BAD_ID: u64 = 32;
 const UA_FROM_FELTS_BAD_LEN: u64 = 33;
+const SF_NEW_SPARE: u64 = 34;
+const SF_READ: u64 = 35;
+const SF_DROP: u64 = 36;
+/// capacity the caller of the public `SensitiveFelts::new` reserves up front (model: SF_SPARE_CAP)
+const SF_SPARE_CAP: usize = 16;
 
 /// what the caller holds between calls (all on this stack frame, except the four serialisation buffers)
 struct Held {
@@ -475,6 +480,7 @@ struct Held {
     nf: Option<SensitiveFelts>,
     ub: Option<Zeroizing<Vec<u8>>>,
     uf: Option<SensitiveFelts>,
+    sf: Option<SensitiveFelts>,
 }
 
 struct Params {
@@ -674,6 +680,23 @@ fn run_op(code: u64, p: &Params, h: &mut Held) {
                 expect_err(UnspendableAccount::from_field_elements(&f[..f.len() - 1]));
             }
         }
+        SF_NEW_SPARE => {
+            // a caller of the public constructor: full (round, larger than needed) capacity reserved before the
+            // secret is written, nullifier-shaped contents, wrapped as it is
+            h.sf = None;
+            let mut v: Vec<F> = Vec::with_capacity(SF_SPARE_CAP);
+            v.extend(bytes_to_digest(p.other));
+            v.extend(bytes_to_digest(p.secret));
+            v.extend(u64_to_felts(p.tc));
+            black_box(&mut v);
+            h.sf = Some(SensitiveFelts::new(v));
+        }
+        SF_READ => {
+            if let Some(f) = &h.sf {
+                h.nul = Some(Nullifier::from_field_elements(f.as_slice()).unwrap());
+            }
+        }
+        SF_DROP => h.sf = None,
         _ => {}
     }
     checkpoint();
@@ -686,7 +709,7 @@ fn run_sequence(ops: &[u64], p: &Params, scan: bool) -> Vec<i128> {
         start_scan();
     }
     let r = no_panic(|| {
-        let mut h = Held { sec: None, nul: None, ua: None, nb: None, nf: None, ub: None, uf: None };
+        let mut h = Held { sec: None, nul: None, ua: None, nb: None, nf: None, ub: None, uf: None, sf: None };
         for &c in ops {
             run_op(c, p, &mut h);
         }
@@ -695,6 +718,7 @@ fn run_sequence(ops: &[u64], p: &Params, scan: bool) -> Vec<i128> {
         h.nf = None;
         h.ub = None;
         h.uf = None;
+        h.sf = None;
         checkpoint();
         drop(h);
     });
